@@ -738,7 +738,7 @@ class ProcessingInstructionNode(XPathNode):
     @property
     def path(self) -> str:
         if self.parent is None:
-            return '/processing-instruction({self.name})[1]'
+            return f'/processing-instruction({self.name})[1]'
 
         pos = self.parent.get_child_position(self)
         if isinstance(self.parent, ElementNode):
